@@ -3,7 +3,7 @@ import ast
 import math
 from fractions import Fraction
 
-from .. import coqrun, maskgen as G, py2gallina as pg
+from .. import coqrun, maskgen as G, py2gallina as pg, symex as X
 from ..core import Corr, Untranslatable, Violation
 
 ID = "C07"
@@ -19,85 +19,138 @@ TRUSTED_BASE = [
 ASSUMPTIONS = ["feasible parameters (L < N/R, etc.; see vlib/maskgen.py:feasible)"]
 RULE = "Gaussian1D/2D realised counts for widths 32-400 / sizes up to 128x128 and accelerations {2,3,4,5.5,8,12} compared exactly with the regenerated count formula over Q; non-trivial = count formula not at a rounding tie; distinct by configuration"
 
-Q_OPS = {ast.Add: "Qplus", ast.Sub: "Qminus", ast.Mult: "Qmult", ast.Div: "Qdiv"}
+Q_OPSV = {"+": "Qplus", "-": "Qminus", "*": "Qmult", "/": "Qdiv"}
+S = lambda n: ("sym", n)
+SHAPE = S("shape")
+PAIR = ("call", ("attr", S("self"), "choose_acceleration"), (), ())
+NCOLS, NROWS = ("sub", SHAPE, X.const(-2)), ("sub", SHAPE, X.const(-3))
+CF, ACC = ("sub", PAIR, X.const(0)), ("sub", PAIR, X.const(1))
+INT = lambda e: ("call", S("int"), (e,), ())
+ROUND = lambda e: ("call", S("round"), (e,), ())
+L_FRACTION = INT(ROUND(("bin", "*", NCOLS, CF)))
+L_COUNT = INT(CF)
+L_EITHER = ("ife", ("cmp", "<", CF, X.const(1.0)), L_FRACTION, L_COUNT)
+OPAQUE = {"choose_acceleration", "_reshape_and_add_coil_axis", "_broadcast_mask", "center_mask_func", "centered_disk_mask"}
 
 
-def qexpr(node, env, path):
-    key = ast.unparse(node)
-    if key in env:
-        return env[key]
-    if isinstance(node, ast.BinOp):
-        for k, nm in Q_OPS.items():
-            if isinstance(node.op, k):
-                return "(%s %s %s)" % (nm, qexpr(node.left, env, path), qexpr(node.right, env, path))
-    if isinstance(node, ast.Constant) and isinstance(node.value, int):
-        return "(inject_Z %d)" % node.value
-    raise Untranslatable("budget: rational expression outside subset: %s" % key[:70], getattr(node, "lineno", None), path)
+def qexpr(v, leaves, path):
+    """Value tree -> rational expression over the named quantities."""
+    if v in leaves:
+        return leaves[v]
+    if v[0] == "bin" and v[1] in Q_OPSV:
+        return "(%s %s %s)" % (Q_OPSV[v[1]], qexpr(v[2], leaves, path), qexpr(v[3], leaves, path))
+    if v[0] == "const" and type(v[1]) is int:
+        return "(inject_Z %d)" % v[1]
+    raise Untranslatable("budget: rational expression outside subset: %s" % X.show(v)[:90], None, path)
 
 
-def _find_assign(fn, name):
-    for node in ast.walk(fn):
-        if isinstance(node, ast.Assign) and ast.unparse(node.targets[0]) == name:
-            return node
-    return None
-
-
-def bindings(fn, node):
-    """Every assignment (anywhere in the function) to a name the expression reads: what N, R, L, mask *are* is part of
-    the budget formula. Emitted verbatim (normalised source text); the tie pins them."""
-    names = sorted({n.id for n in ast.walk(node) if isinstance(n, ast.Name) and n.id not in ("self", "np", "int", "round", "i")})
-    found = []
-    for st in ast.walk(fn):
-        targets = []
-        if isinstance(st, ast.Assign):
-            targets = st.targets
-        elif isinstance(st, (ast.AugAssign, ast.AnnAssign)):
-            targets = [st.target]
-        for t in targets:
-            tn = [e.id for e in ast.walk(t) if isinstance(e, ast.Name) and isinstance(e.ctx, ast.Store)]
-            if any(n in names for n in tn):
-                found.append((st.lineno, ast.unparse(st).replace('"', "'")))
-    return [t for _, t in sorted(set(found))]
+def _line_count(conds, path, what, both=True):
+    """The requested number of ACS lines on a path of a line generator: round(N * fraction) below 1.0, else the count."""
+    frac = [pol for c, pol in conds if c == ("cmp", "<", CF, X.const(1.0))]
+    if not both:
+        return L_FRACTION
+    if not frac:
+        return L_EITHER  # decided inside a helper: one conditional value
+    if len(set(frac)) != 1:
+        raise Untranslatable("%s: the path decides `center_fraction < 1.0` both ways" % what, None, path)
+    return L_FRACTION if frac[0] else L_COUNT
 
 
 def _strlist(name, items):
-    return "Definition %s : list string := [%s].\n" % (name, "; ".join('"%s"' % i.replace('"', '""') for i in items))
+    return "Definition %s : list string := [%s].\n" % (name, "; ".join('"%s"' % i.replace('"', "'") for i in items))
+
+
+def _one(forms, what, path):
+    if len(forms) != 1:
+        raise Untranslatable("%s: the formula differs between paths (or is never reached): %s" % (what, sorted(forms)[:3]), None, path)
+    return next(iter(forms))
 
 
 def generate(ctx):
+    """The budget formulas where they are *used* (the probability the uniform draw is compared with, the step handed to
+    arange, the count handed to the rejection kernels), as value trees of a symbolic execution (vlib/symex.py): they come
+    out in terms of the shape, the seeded (fraction, acceleration) choice and the ACS request, so what N, R and L are
+    bound to is part of what is translated; the calls that build the ACS are required to use the same L."""
     path = ctx.src("direct/common/subsample.py")
     tree, _ = pg.parse_file(path)
     out = "From Coq Require Import QArith String.\nOpen Scope string_scope.\n"
-    env = {"num_cols": "N", "acceleration": "R", "num_low_freqs": "L", "num_rows": "M"}
-    a = _find_assign(pg.find_def(tree, "RandomMaskFunc.mask_func", path), "prob")
-    if a is None:
-        raise Untranslatable("RandomMaskFunc: prob not found", None, path)
-    out += "Definition random_prob (N R L : Q) : Q := %s.\n" % qexpr(a.value, env, path)
-    out += _strlist("random_bindings", bindings(pg.find_def(tree, "RandomMaskFunc.mask_func", path), a.value))
-    a = _find_assign(pg.find_def(tree, "EquispacedMaskFunc.mask_func", path), "adjusted_accel")
-    if a is None:
-        raise Untranslatable("EquispacedMaskFunc: adjusted_accel not found", None, path)
-    out += "Definition equi_adjusted (N R L : Q) : Q := %s.\n" % qexpr(a.value, env, path)
-    out += _strlist("equi_bindings", bindings(pg.find_def(tree, "EquispacedMaskFunc.mask_func", path), a.value))
-    a = _find_assign(pg.find_def(tree, "Gaussian1DMaskFunc.mask_func", path), "nonzero_count")
-    v = a.value if a is not None else None
-    if not (isinstance(v, ast.Call) and ast.unparse(v.func) == "int" and isinstance(v.args[0], ast.Call) and ast.unparse(v.args[0].func) == "np.round"):
-        raise Untranslatable("Gaussian1D: nonzero_count is not int(np.round(...))", None, path)
-    out += "Definition g1d_arg (N R L : Q) : Q := %s.\n" % qexpr(v.args[0].args[0], env, path)
-    out += _strlist("g1d_bindings", bindings(pg.find_def(tree, "Gaussian1DMaskFunc.mask_func", path), v.args[0].args[0]))
-    fn2 = pg.find_def(tree, "Gaussian2DMaskFunc.mask_func", path)
-    a = _find_assign(fn2, "nonzero_count")
-    v = a.value if a is not None else None
-    if not (isinstance(v, ast.Call) and ast.unparse(v.func) == "int" and isinstance(v.args[0], ast.Call) and ast.unparse(v.args[0].func) == "np.round"):
-        raise Untranslatable("Gaussian2D: nonzero_count is not int(np.round(...))", None, path)
-    env2 = dict(env)
-    env2["mask.sum()"] = "L"
-    out += "Definition g2d_arg (N M R L : Q) : Q := %s.\n" % qexpr(v.args[0].args[0], env2, path)
-    out += _strlist("g2d_bindings", bindings(fn2, v.args[0].args[0]))
-    # the dynamic branch must use the same expression per frame
-    dyn = [ast.unparse(n) for n in ast.walk(fn2) if isinstance(n, ast.Call) and ast.unparse(n.func) == "np.round"]
-    if sorted(d.replace("mask[i].sum()", "mask.sum()") for d in dyn) != sorted([ast.unparse(v.args[0])] * 2):
-        raise Untranslatable("Gaussian2D: per-frame count differs from the static one", fn2.lineno, path)
+    facts = {}
+    # ---- Random: the draw is compared with prob; Equispaced: the step of arange ----
+    for cls, key in (("RandomMaskFunc", "random"), ("EquispacedMaskFunc", "equi")):
+        hits, stopped = X.watch_calls(tree, path, cls + ".mask_func", ["center_mask_func", "arange"], opaque=OPAQUE)
+        forms, acs = set(), set()
+        for conds, args, kw in hits["center_mask_func"]:
+            if len(args) != 2 or args[0] != NCOLS or args[1] != _line_count(conds, path, cls):
+                raise Untranslatable("%s: the ACS is not center_mask_func(num_cols, requested lines): %s" % (cls, [X.show(a)[:60] for a in args]), None, path)
+            acs.add(X.show(args[1]))
+        if acs not in ({X.show(L_FRACTION), X.show(L_COUNT)}, {X.show(L_EITHER)}):
+            raise Untranslatable("%s: ACS request not found on both paths (%s)" % (cls, stopped), None, path)
+        if key == "random":
+            for ln, conds, it, env in hits["$probes"]:
+                L = _line_count(conds, path, cls)
+                lv = {NCOLS: "N", ACC: "R", L: "L"}
+                for n in X.find_nodes(env, lambda v: v[0] == "cmp" and v[1] == "<" and v[2][0] == "call" and v[2][1] == ("attr", ("attr", S("self"), "rng"), "uniform")):
+                    if dict(n[2][3]).get("size", (list(n[2][2]) + [None])[0]) != NCOLS:
+                        raise Untranslatable("RandomMaskFunc: the uniform draw is not one value per column", None, path)
+                    forms.add(qexpr(n[3], lv, path))
+            out += "Definition random_prob (N R L : Q) : Q := %s.\n" % _one(forms, "RandomMaskFunc: probability the uniform draw is compared with", path)
+        else:
+            for conds, args, kw in hits["arange"]:
+                L = _line_count(conds, path, cls)
+                lv = {NCOLS: "N", ACC: "R", L: "L"}
+                if len(args) != 3:
+                    raise Untranslatable("EquispacedMaskFunc: arange is not called with (offset, stop, step)", None, path)
+                forms.add(qexpr(args[2], lv, path))
+            out += "Definition equi_adjusted (N R L : Q) : Q := %s.\n" % _one(forms, "EquispacedMaskFunc: step of arange", path)
+        facts[key] = ["N = " + X.show(NCOLS), "R = " + X.show(ACC), "L = %s if %s < 1.0 else %s" % (X.show(L_FRACTION), X.show(CF), X.show(L_COUNT)), "ACS = center_mask_func(N, L)"]
+        out += _strlist(key + "_bindings", facts[key])
+    # ---- Gaussian 1-D: the count handed to the kernel ----
+    hits, stopped = X.watch_calls(tree, path, "Gaussian1DMaskFunc.mask_func", ["center_mask_func", "gaussian_mask_1d"], opaque=OPAQUE)
+    for conds, args, kw in hits["center_mask_func"]:
+        if len(args) != 2 or args[0] != NCOLS or args[1] != L_FRACTION:
+            raise Untranslatable("Gaussian1D: the ACS is not center_mask_func(num_cols, round(num_cols * fraction))", None, path)
+    forms = set()
+    for conds, args, kw in hits["gaussian_mask_1d"]:
+        c = args[0] if args else None
+        if not (c and c == INT(("call", ("attr", S("np"), "round"), c[2][0][2], ())) and len(args) >= 2 and args[1] == NCOLS):
+            raise Untranslatable("Gaussian1D: the kernel is not called with (int(np.round(..)), num_cols, ..): %s" % (X.show(c)[:80] if c else None), None, path)
+        forms.add(qexpr(c[2][0][2][0], {NCOLS: "N", ACC: "R", L_FRACTION: "L"}, path))
+    if len(hits["gaussian_mask_1d"]) < 2 or not hits["center_mask_func"]:
+        raise Untranslatable("Gaussian1D: kernel call not reached in both modes (%s)" % stopped, None, path)
+    out += "Definition g1d_arg (N R L : Q) : Q := %s.\n" % _one(forms, "Gaussian1D: count handed to the kernel", path)
+    facts["g1d"] = ["N = " + X.show(NCOLS), "R = " + X.show(ACC), "L = " + X.show(L_FRACTION), "ACS = center_mask_func(N, L)", "kernel width = N"]
+    out += _strlist("g1d_bindings", facts["g1d"])
+    # ---- Gaussian 2-D: the count handed to the kernel, per frame; L is the size of the centre disc just built ----
+    hits, stopped = X.watch_calls(tree, path, "Gaussian2DMaskFunc.mask_func", ["gaussian_mask_2d"], opaque=OPAQUE)
+    disc = ("call", S("centered_disk_mask"), (("tuple", (NROWS, NCOLS)), CF), ())
+    forms = set()
+
+    def disc_sum(v):
+        """`<the centre disc, or one frame of its repetition over the frames>.sum()`"""
+        if not (v[0] == "call" and v[1][0] == "attr" and v[1][2] == "sum" and not v[2] and not v[3]):
+            return False
+        m = v[1][1]
+        if m == disc:
+            return True
+        if m[0] == "sub" and m[2][0] in ("bv",):
+            m = m[1]
+            return m[0] == "call" and m[1][0] == "attr" and m[1][2] == "repeat" and m[1][1] == ("sub", disc, ("attr", S("np"), "newaxis")) and dict(m[3]).get("axis") == X.const(0)
+        return False
+
+    for conds, args, kw in hits["gaussian_mask_2d"]:
+        c = args[0] if args else None
+        if not (c and c[0] == "call" and c[1] == S("int") and c[2][0][0] == "call" and c[2][0][1] == ("attr", S("np"), "round") and len(args) >= 3 and args[1] == NROWS and args[2] == NCOLS):
+            raise Untranslatable("Gaussian2D: the kernel is not called with (int(np.round(..)), num_rows, num_cols, ..)", None, path)
+        arg = c[2][0][2][0]
+        sums = X.find_nodes(arg, lambda v: v[0] == "call" and v[1][0] == "attr" and v[1][2] == "sum")
+        if len(set(sums)) != 1 or not disc_sum(sums[0]):
+            raise Untranslatable("Gaussian2D: the count does not subtract the size of the centre disc of this frame: %s" % X.show(arg)[:120], None, path)
+        forms.add(qexpr(arg, {NCOLS: "N", NROWS: "M", ACC: "R", sums[0]: "L"}, path))
+    if len(hits["gaussian_mask_2d"]) < 2:
+        raise Untranslatable("Gaussian2D: kernel call not reached in both modes (%s)" % stopped, None, path)
+    out += "Definition g2d_arg (N M R L : Q) : Q := %s.\n" % _one(forms, "Gaussian2D: count handed to the kernel", path)
+    facts["g2d"] = ["M, N = %s, %s" % (X.show(NROWS), X.show(NCOLS)), "R = " + X.show(ACC), "disc = " + X.show(disc), "L = disc.sum() (the frame's own copy in dynamic / multislice mode)", "kernel grid = M x N"]
+    out += _strlist("g2d_bindings", facts["g2d"])
     # +1 of the kernels
     import re
 
